@@ -87,6 +87,9 @@ def gen_cases(tier, seed):
                     for op in OPS + ["/"]:
                         for t in TYPES:
                             cases.append({"kind": "arith", "ta": ta, "a": a, "tb": tb, "b": b, "op": op, "tt": t, "form": rng.choice(["plain", "paren"])})
+    for tt in TYPES:
+        for what, n in (("len_long", 16383), ("len_long", 16384), ("len_long", 32767), ("instr_long", 16383), ("instr_long", 20000), ("val_int", 400), ("val_int", 320), ("val_frac", 400)):
+            cases.append({"kind": "special", "what": what, "n": n, "tt": tt})
     # random values inside the ranges
     nr = 4000 if tier == "quick" else 300000
     for _ in range(nr):
@@ -103,6 +106,26 @@ def gen_cases(tier, seed):
 
 def build(case):
     """Returns (source, stdin, files, expected) where expected = ('value', tt, v) | ('error', 6) | raises Discard."""
+    if case["kind"] == "special":
+        tt = case["tt"]
+        if case["what"] == "len_long":
+            # the length of a string can exceed the INTEGER range
+            n = case["n"]
+            src = 'S$ = STRING$(%d, "a")\nS$ = S$ + S$\nT%s = LEN(S$)\nPRINT T%s\n' % (n, tt, tt)
+            try:
+                return src, "", None, ("value", tt, convert(("&", 2 * n), tt)[1])
+            except BasicError as e:
+                return src, "", None, ("error", e.code)
+        if case["what"] == "instr_long":
+            n = case["n"]
+            src = 'S$ = STRING$(%d, "a")\nS$ = S$ + S$ + "b"\nT%s = INSTR(S$, "b")\nPRINT T%s\n' % (n, tt, tt)
+            try:
+                return src, "", None, ("value", tt, convert(("&", 2 * n + 1), tt)[1])
+            except BasicError as e:
+                return src, "", None, ("error", e.code)
+        # VAL of more digits than a DOUBLE can hold: Overflow, never infinity
+        src = 'T%s = VAL(STRING$(%d, "9")%s)\nPRINT T%s\n' % (tt, case["n"], ' + ".5"' if case["what"] == "val_frac" else "", tt)
+        return src, "", None, ("error", 6)
     if case["kind"] == "for_incr":
         tt = case["tt"]
         c = "C" + tt
